@@ -11,6 +11,7 @@ import (
 	"time"
 
 	"github.com/google/uuid"
+	"go.dedis.ch/kyber/v3/util/key"
 	"go.dedis.ch/onet/v3"
 	"go.dedis.ch/onet/v3/network"
 	"onetverif/harness/fix"
@@ -52,8 +53,18 @@ type c07env struct {
 	winTok       onet.TokenID
 	winFn        func()
 	winHook      string
+	selfConn     network.Conn // a connection on which the peer announced the server's OWN identity
+	inBarrier    bool
+	markN        int
+	markCh       chan int
 	winOpened    bool
 }
+
+// c07Marker follows every envelope sent over the self-announcing connection: its arrival tells that the router has
+// dispatched what was sent before it
+type c07Marker struct{ N int }
+
+var c07markerType = network.RegisterMessage(&c07Marker{})
 
 type c07peer struct{ e *c07env }
 
@@ -154,6 +165,26 @@ func (e *c07env) tm(t, r, shape string) *onet.TreeMarshal {
 // send hands one message to server 1: directly to its dispatcher's processor
 // (the overlay), or over a real connection from server 0.
 func (e *c07env) send(typ network.MessageTypeID, msg interface{}, peer int) error {
+	if e.selfConn != nil && !e.inBarrier {
+		e.markN++
+		if _, err := e.selfConn.Send(msg); err != nil {
+			return err
+		}
+		if _, err := e.selfConn.Send(&c07Marker{e.markN}); err != nil {
+			return err
+		}
+		dl := time.After(5 * time.Second)
+		for {
+			select {
+			case n := <-e.markCh:
+				if n == e.markN {
+					return nil
+				}
+			case <-dl:
+				return fmt.Errorf("the marker behind the message was not dispatched within 5 s")
+			}
+		}
+	}
 	if e.wire {
 		_, err := e.cl.Servers[peer].Send(e.cl.SI(1), msg)
 		return err
@@ -228,7 +259,10 @@ func (e *c07env) barrier(tok *onet.Token) error {
 		}
 	}
 	pm := e.protoMsg(tok, e.member(t, tok.RoundID), &fix.MSync{V: n}, false)
-	if err := e.send(onet.ProtocolMsgID, pm, 0); err != nil {
+	e.inBarrier = true
+	err := e.send(onet.ProtocolMsgID, pm, 0)
+	e.inBarrier = false
+	if err != nil {
 		return err
 	}
 	deadline := time.Now().Add(5 * time.Second)
@@ -293,14 +327,24 @@ func c07exec(c *h.Ctx, cs *h.Case) {
 		c07raw(c, cs)
 		return
 	}
+	if len(cs.Ops) > 0 && strings.HasPrefix(cs.Ops[0], "c07 flood") {
+		c07flood(c, cs)
+		return
+	}
 	e := &c07env{trees: map[string]*onet.Tree{}, rosters: map[string]*onet.Roster{}, toks: map[string]*onet.Token{}}
 	st := strings.Fields(cs.Ops[0])
 	if len(st) != 4 || st[1] != "state" {
 		cs.Impl = append(cs.Impl, "bad-op")
 		return
 	}
-	e.wire = st[3] != "direct"
-	e.cl = fix.NewCluster(3, st[3] == "wire-tcp")
+	// wire-self: the envelopes arrive over a plain TCP connection on which the peer announced the server's own identity
+	// (whatever the server sends "to the peer" it sends to itself); no model of that: crash / wedge / lock / canaries only
+	selfMode := st[3] == "wire-self"
+	if selfMode {
+		cs.NoModel = true
+	}
+	e.wire = st[3] != "direct" && !selfMode
+	e.cl = fix.NewCluster(3, st[3] == "wire-tcp" || selfMode)
 	defer e.cl.Close()
 	e.ov = e.cl.Overlay(1)
 	ids := e.cl.Roster.List
@@ -315,6 +359,7 @@ func c07exec(c *h.Ctx, cs *h.Case) {
 	mk := func(t string) *onet.Token { return fix.TokenFor(e.trees[t], node[t], uuid.New()) }
 	e.toks["run"], e.toks["done"], e.toks["freshK"], e.toks["freshR"], e.toks["freshU"] = mk("K"), mk("K"), mk("K"), mk("R"), mk("U")
 	e.toks["canary"] = mk("K")
+	e.toks["canary2"] = mk("K")
 	e.syncTok = mk("K")
 	noProto := onet.ProtocolNameToID("VerifNoSuchProtocol")
 	for _, t := range []string{"K", "R", "U"} {
@@ -394,6 +439,27 @@ func c07exec(c *h.Ctx, cs *h.Case) {
 	}
 	e.sent0 = e.cl.Servers[1].MsgTx()
 	cs.Impl = append(cs.Impl, "ok")
+	if selfMode {
+		e.markCh = make(chan int, 1000)
+		e.cl.Servers[1].RegisterProcessorFunc(c07markerType, func(env *network.Envelope) error {
+			if m, ok := env.Msg.(*c07Marker); ok {
+				e.markCh <- m.N
+			}
+			return nil
+		})
+		conn, err := network.NewTCPConn(e.cl.SI(1).Address, fix.Suite)
+		if err != nil {
+			fail("setup", err.Error())
+			return
+		}
+		defer conn.Close()
+		own := *e.cl.SI(1)
+		if _, err := conn.Send(&own); err != nil {
+			fail("setup", err.Error())
+			return
+		}
+		e.selfConn = conn
+	}
 
 	tokOf := func(s string) (*onet.Token, string) {
 		switch s {
@@ -709,6 +775,9 @@ func c07exec(c *h.Ctx, cs *h.Case) {
 			fail("wedged", fmt.Sprintf("after %q: %v", op, err))
 			return
 		}
+		if selfMode {
+			wantReplies = -1 // the answers go to the server itself
+		}
 		if wantReplies >= 0 {
 			if !e.waitReplies(wantReplies, 5*time.Second) {
 				cs.Fail("request-not-answered", fmt.Sprintf("%q got no reply within 5 s", op))
@@ -732,6 +801,7 @@ func c07exec(c *h.Ctx, cs *h.Case) {
 		cs.Impl = append(cs.Impl, o)
 	}
 	// canaries: a legitimate run, tree request and roster request must still be served
+	e.selfConn = nil
 	e.mu.Lock()
 	d0 := e.delivered
 	e.mu.Unlock()
@@ -757,6 +827,19 @@ func c07exec(c *h.Ctx, cs *h.Case) {
 		if !waitDelivery("canary", ty) {
 			cs.Fail("canary-run", fmt.Sprintf("a legitimate protocol message (kind %d) of a new run on the known tree was not delivered within 5 s", ty))
 			break
+		}
+	}
+	// … and a member that has had no connection with the server so far (server 2) is served: a legitimate message of
+	// yet another run, from its own node, over a connection that has to be set up now
+	{
+		e.val++
+		ct := e.toks["canary2"]
+		from := e.member(e.trees["K"], ct.RoundID)
+		from.TreeNodeID = e.trees["K"].Root.Children[1].ID
+		if _, err := e.cl.Servers[2].Send(e.cl.SI(1), e.protoMsg(ct, from, fix.Payload(3, e.val), false)); err != nil {
+			cs.Fail("canary-fresh-connection", "a member without a connection so far could not send: "+err.Error())
+		} else if !waitDelivery("canary2", 3) {
+			cs.Fail("canary-fresh-connection", "a legitimate protocol message of a member that had no connection with the server so far was not delivered within 5 s")
 		}
 	}
 	if st[2] == "midrun" {
@@ -856,6 +939,85 @@ func c07raw(c *h.Ctx, cs *h.Case) {
 	}
 	cs.Impl = []string{"ok"}
 	cs.Outcome = "rawbytes survived"
+}
+
+// c07flood: many connections on which the peer sends nothing, or the beginning of a frame, or only its identity, all
+// kept open; a member that has no connection with the server yet must still be served.
+func c07flood(c *h.Ctx, cs *h.Case) {
+	cs.NoModel = true
+	tk := strings.Fields(cs.Ops[0])
+	n, _ := strconv.Atoi(tk[2])
+	var seed int64
+	fmt.Sscan(tk[3], &seed)
+	r := rand.New(rand.NewSource(seed))
+	cl := fix.NewCluster(3, true)
+	defer cl.Close()
+	addr := cl.SI(1).Address.NetworkAddress()
+	var conns []net.Conn
+	defer func() {
+		for _, c := range conns {
+			c.Close()
+		}
+	}()
+	kinds := map[string]int{}
+	for i := 0; i < n; i++ {
+		conn, err := net.DialTimeout("tcp", addr, 2*time.Second)
+		if err != nil {
+			cs.Fail("listener-gone", fmt.Sprintf("connection %d: %v", i, err))
+			break
+		}
+		conns = append(conns, conn)
+		conn.SetWriteDeadline(time.Now().Add(time.Second))
+		switch r.Intn(4) {
+		case 0:
+			kinds["silent"]++
+		case 1: // a length prefix and a few bytes of the body
+			conn.Write([]byte{0, 0, 0, 0x40, 0xde, 0xad, 0xbf})
+			kinds["half-frame"]++
+		case 2: // half a length prefix
+			conn.Write([]byte{0, 0})
+			kinds["half-prefix"]++
+		default: // a well-formed first message (an identity nobody knows), then silence
+			kp := key.NewKeyPair(fix.Suite)
+			id := network.NewServerIdentity(kp.Public, network.NewTCPAddress(fmt.Sprintf("127.0.0.1:%d", 6000+i)))
+			if buf, err := network.Marshal(id); err == nil {
+				hdr := []byte{byte(len(buf) >> 24), byte(len(buf) >> 16), byte(len(buf) >> 8), byte(len(buf))}
+				conn.Write(append(hdr, buf...))
+			}
+			kinds["identity-then-silent"]++
+		}
+	}
+	// canary: a real run between two servers that have no connection with each other yet
+	tree := cl.Roster.GenerateBinaryTree()
+	fix.ResetRecs()
+	defer fix.DoneAll()
+	pi, err := cl.L.CreateProtocol(fix.ProtoName, tree)
+	if err != nil {
+		cs.Fail("canary-fresh-connection", err.Error())
+	} else {
+		rec := fix.RecOf(pi.Token())
+		child := tree.Root.Children[0]
+		if err := rec.Tni.SendTo(child, &fix.M3{V: 1}); err != nil {
+			cs.Fail("canary-fresh-connection", err.Error())
+		}
+		tok := pi.Token().Clone()
+		tok.TreeNodeID = child.ID
+		ok := false
+		for dl := time.Now().Add(5 * time.Second); time.Now().Before(dl) && !ok; time.Sleep(time.Millisecond) {
+			if rc := fix.RecOf(tok); rc != nil {
+				for _, d := range rc.Drain() {
+					if d.Ty == 3 {
+						ok = true
+					}
+				}
+			}
+		}
+		if !ok {
+			cs.Fail("canary-fresh-connection", fmt.Sprintf("with %d open connections on which the peer says nothing or too little (%v), a member that had no connection with the server yet is not served within 5 s", len(conns), kinds))
+		}
+	}
+	cs.Impl = []string{"ok"}
+	cs.Outcome = fmt.Sprintf("flood %d survived", n)
 }
 
 func c07gen(c *h.Ctx, yield func(*h.Case)) {
@@ -1051,6 +1213,36 @@ func c07gen(c *h.Ctx, yield func(*h.Case)) {
 		}
 		c.Count(fmt.Sprintf("class=rwindow mode=%s inside=%d", m, nb))
 		yield(&h.Case{Class: "rwindow " + m, Ops: ops})
+	}
+	for i, n := range []int{40, 100, 33, 64}[:c.Pick(2, 4)] {
+		c.Count("class=flood")
+		yield(&h.Case{Class: "flood", Ops: []string{fmt.Sprintf("c07 flood %d %d", n, r.Int63n(1<<40)+int64(i))}})
+	}
+	// a peer that announced the server's own identity on a plain TCP connection: whatever the server answers or asks,
+	// it answers and asks itself, in the routine that handles the envelope
+	selfSeqs := [][]string{
+		{"c07 proto badprotoU member 1", "c07 resptree U roX good roX 1", "c07 treemarshal R roX good", "c07 sendroster roX 1"},
+		{"c07 treemarshal R roR good", "c07 reqroster roK", "c07 reqtree K 1", "c07 reqtree K 0", "c07 proto freshU member 1", "c07 treemarshal U roK good"},
+	}
+	for i := 0; i < c.Pick(10, 300); i++ {
+		var ops []string
+		if i < len(selfSeqs) {
+			ops = append([]string{"c07 state idle wire-self"}, selfSeqs[i]...)
+		} else {
+			ops = []string{fmt.Sprintf("c07 state %s wire-self", states[r.Intn(3)])}
+			if r.Intn(2) == 0 {
+				ops = append(ops, "c07 proto badprotoU member 1", "c07 resptree U roX good roX 1")
+			}
+			for j := 0; j < 2+r.Intn(c.Pick(8, 20)); j++ {
+				e := envs[r.Intn(len(envs))]
+				if e == "c07 config 0" {
+					continue
+				}
+				ops = append(ops, e)
+			}
+		}
+		c.Count("class=selfpeer")
+		yield(&h.Case{Class: "selfpeer", Ops: ops})
 	}
 	for i := 0; i < c.Pick(4, 60); i++ {
 		c.Count("class=rawbytes")
